@@ -67,7 +67,7 @@ static int kind_slot(Kind k) {
         default: return -1;
     }
 }
-static const double PAR_SCALES[4] = {1, 1e-2, 1e2, 1e-3};
+static const double PAR_SCALES[6] = {1, 1e-2, 1e2, 1e-3, 1e-9, 1e9};
 struct Spec {
     Kind kind = SEG;
     bool rel = false;
@@ -126,7 +126,7 @@ static P2 par_fn_l(LD u, const void* data) {
     else r = {3 * u, u};
     return d->scale * r;
 }
-static const ParL PAR_TAB[3][4] = {{{0, 1}, {0, 1e-2L}, {0, 1e2L}, {0, 1e-3L}}, {{1, 1}, {1, 1e-2L}, {1, 1e2L}, {1, 1e-3L}}, {{2, 1}, {2, 1e-2L}, {2, 1e2L}, {2, 1e-3L}}};
+static const ParL PAR_TAB[3][6] = {{{0, 1}, {0, 1e-2L}, {0, 1e2L}, {0, 1e-3L}, {0, 1e-9L}, {0, 1e9L}}, {{1, 1}, {1, 1e-2L}, {1, 1e2L}, {1, 1e-3L}, {1, 1e-9L}, {1, 1e9L}}, {{2, 1}, {2, 1e-2L}, {2, 1e2L}, {2, 1e-3L}, {2, 1e-9L}, {2, 1e9L}}};
 
 static void apply_direct(Curve& c, const Spec& s) {
     Array<Vec2> a = {};
@@ -237,16 +237,16 @@ static std::string verify_hobby(const std::vector<P2>& K, const std::vector<P2>&
         if (!finite2(a) || !finite2(b)) return fmt("segment %d: non-finite control point", k);
         da[k] = atan2l(a.y, a.x);
         db[k] = atan2l(b.y, b.x);
-        dirok[k] = norm(a) > 1e-9L && norm(b) > 1e-9L;
+        dirok[k] = norm(a) > 1e-9L * d[k] && norm(b) > 1e-9L * d[k];   // relative to the chord: magnitude-free
         th[k] = wrap_pi(da[k] - del);
         ph[k] = wrap_pi(del - db[k]);
         LD st = sinl(th[k]), ct = cosl(th[k]), sp = sinl(ph[k]), cp = cosl(ph[k]);
         LD alpha = A * (st - B * sp) * (sp - B * st) * (ct - cp);
         LD rho = (2 + alpha) / (1 + (1 - C) * ct + C * cp), sig = (2 - alpha) / (1 + (1 - C) * cp + C * ct);
         if (dirok[k]) {
-            if (fabsl(norm(a) - d[k] * rho / 3) > 1e-9L * (1 + d[k]))
+            if (fabsl(norm(a) - d[k] * rho / 3) > 1e-9L * d[k])
                 return fmt("segment %d: |c1-z0|=%.12Lg but Hobby velocity d*rho(theta,phi)/3=%.12Lg (theta=%.6Lg phi=%.6Lg)", k, norm(a), d[k] * rho / 3, th[k], ph[k]);
-            if (fabsl(norm(b) - d[k] * sig / 3) > 1e-9L * (1 + d[k]))
+            if (fabsl(norm(b) - d[k] * sig / 3) > 1e-9L * d[k])
                 return fmt("segment %d: |z1-c2|=%.12Lg but Hobby velocity d*sigma(theta,phi)/3=%.12Lg (theta=%.6Lg phi=%.6Lg)", k, norm(b), d[k] * sig / 3, th[k], ph[k]);
         }
     }
@@ -274,7 +274,7 @@ static std::string verify_hobby(const std::vector<P2>& K, const std::vector<P2>&
                         if (b && !cons[farR]) continue;
                         if (!a && !b && !(fabsl(th[Lg]) < 2 && fabsl(ph[Rg]) < 2) && !cons[farL] && !cons[farR]) continue;
                         LD l = (th[Lg] + 2 * PI_L * a - 2 * ph[Lg]) / d[Lg], r = (ph[Rg] + 2 * PI_L * b - 2 * th[Rg]) / d[Rg];
-                        if (fabsl(l - r) <= 1e-8L) { ok = true; reduced_ok = !a && !b; }
+                        if (fabsl(l - r) <= 1e-8L / std::min(d[Lg], d[Rg])) { ok = true; reduced_ok = !a && !b; }   // angles per length: slack scales with 1/chord
                     }
                 bool applicable = cons[farL] || cons[farR] || (fabsl(th[Lg]) < 2 && fabsl(ph[Rg]) < 2);
                 if (applicable && !ok) {
